@@ -86,7 +86,8 @@ def docstring_ok(out):
 
 
 PY_LINES = ["x = 1", "y = [1,", "     2]", "def f(a, b):", "class A:", "class B(A):", "@decorator", "# a comment", "_private = 3",
-            "return x", "pass", "if x:", "else:", "for i in y:", 'print("a  b")', "import os", 'z = """triple', 'quoted  ', 'text"""', "__all__ = (", ")", "async def g():", "'''doc'''"]
+            "return x", "pass", "if x:", "else:", "for i in y:", 'print("a  b")', "import os", 'z = """triple', 'quoted  ', 'text"""', "__all__ = (", ")", "async def g():", "'''doc'''",
+            "# ff\x0cw = 1", "u = 'a\u2028b'", "r = 'a\x1eb'  ", "# nel \x85 v = 2", "k = 1\x0c", "t = 'x\ty'\t"]
 
 
 def gen_source(r: apigen.Rng):
@@ -109,13 +110,16 @@ def gen_source(r: apigen.Rng):
     return "\n".join(out) + tail
 
 
+EXOTIC_SEPARATORS = ["\x0b", "\x0c", "\x1c", "\x1d", "\x1e", "\x85", "\u2028", "\u2029", "\t", "\xa0", "\u3000"]
+
+
 def gen_valid_source(r: apigen.Rng):
     """always-valid Python with irregular blank lines and trailing blanks"""
     blocks = []
     def blanks():
         return "".join(r.pick(["\n", "\n", "  \n", "    \n", "\t\n"]) for _ in range(r.randint(0, 5)))
     for i in range(r.randint(1, 6)):
-        kind = r.pick(["def", "class", "assign", "decorated", "comment", "under", "string"])
+        kind = r.pick(["def", "class", "assign", "decorated", "comment", "under", "string", "exotic"])
         t = " " * r.randint(0, 3) if r.maybe(0.3) else ""
         if kind == "def":
             body = f"def f{i}(a, b):{t}\n" + blanks() + f"    x = a{t}\n" + blanks() + "    def inner():\n" + blanks() + f"        return b{t}\n" + blanks() + "    return x\n"
@@ -129,6 +133,13 @@ def gen_valid_source(r: apigen.Rng):
             body = f"# comment {i}{t}\n"
         elif kind == "under":
             body = f"_u{i} = 0{t}\n"
+        elif kind == "exotic":
+            # characters str.splitlines() / \s treat as line ends or blanks but Python's tokenizer does not: legal inside a
+            # comment or a one-line string literal (an http rule uri, a default value, a doc comment copied from a proto)
+            x = r.pick(EXOTIC_SEPARATORS)
+            sp = r.pick(["", " ", "  "])
+            body = r.pick([f"# note{sp}{x}{sp}e{i} = 1{t}\n", f"e{i} = 'a{sp}{x}{sp}b'{t}\n", f"e{i} = {{'uri': '/v1/x{x}y'}}{t}\n",
+                           f"e{i} = 1  # c{x}{t}\n", f"def e{i}():{t}\n    return 'p{x}'{t}\n" + blanks() + f"    # q{sp}{x}\n"])
         else:
             body = f's{i} = """a  \n\n\n\n    b\n   \n"""{t}\n'
         blocks.append(blanks() + body)
